@@ -80,3 +80,50 @@ def native_sweep(uni, sidecar_modules, keys, limit=100000):
                 break
         per[key] = c
     return nat.evaluations, failures, per
+
+
+def accelerator_specs():
+    """(name, yaml text) of full specifications (einsum + mapping + architecture + bindings + format): the
+    integration YAMLs plus YAML string literals found in the repository's test files (used as inputs only)"""
+    import ast as _ast
+    import glob as _glob
+    from pyvc.extract import REPO
+    out, seen = [], set()
+    for path in sorted(_glob.glob(REPO + "/tests/integration/*.yaml")):
+        txt = open(path).read()
+        if "bindings:" in txt and "architecture:" in txt and "einsum:" in txt:
+            out.append((path.rsplit("/", 1)[1], txt))
+            seen.add(txt)
+    for path in sorted(_glob.glob(REPO + "/tests/**/*.py", recursive=True)):
+        try:
+            tree = _ast.parse(open(path).read())
+        except SyntaxError:
+            continue
+        k = 0
+        for n in _ast.walk(tree):
+            if isinstance(n, _ast.Constant) and isinstance(n.value, str) and "einsum:" in n.value \
+                    and "bindings:" in n.value and "architecture:" in n.value and n.value not in seen:
+                seen.add(n.value)
+                k += 1
+                out.append(("%s#%d" % (path.rsplit("/", 1)[1], k), n.value))
+    return out
+
+
+def compile_full(txt, fill_spacetime=True):
+    """metrics-mode compilation; an Einsum without a spacetime entry gets the all-temporal default (harness-side
+    completion of the input, so that more of the repository's accelerator snippets are usable)"""
+    from teaal.parse import Einsum, Mapping, Architecture, Bindings, Format
+    from teaal.parse.spacetime import SpaceTimeParser
+    from teaal.ir.program import Program
+    from teaal.trans.hifiber import HiFiber
+    es, ms = Einsum.from_str(txt), Mapping.from_str(txt)
+    if fill_spacetime:
+        prog = Program(Einsum.from_str(txt), Mapping.from_str(txt))
+        for i, expr in enumerate(es.get_expressions()):
+            out = str(next(expr.find_data("output")).children[0])
+            if out not in ms.get_spacetime():
+                prog.add_einsum(i)
+                ranks = prog.get_loop_order().get_ranks()
+                prog.reset()
+                ms.get_spacetime()[out] = {"space": [], "time": [SpaceTimeParser.parse(r) for r in ranks]}
+    return HiFiber(es, ms, Architecture.from_str(txt), Bindings.from_str(txt), Format.from_str(txt))
